@@ -1,0 +1,11 @@
+//go:build !verif
+
+package http
+
+import "net"
+
+// verifListen is the verification seam of setupListener (see verif_on.go); in
+// normal builds it never takes over.
+func verifListen(_, _ string) (net.Listener, bool, error) {
+	return nil, false, nil
+}
